@@ -261,12 +261,15 @@ def computeHashes (w : Int × Int) (s : Store) : Option Store :=
   if Gen.jobHashesJobIdKey && !(nodup (rows.map (·.1))) then none
   else some { s with hashes := rows }
 
+/-- first occurrence of every `(job name, shape)` key -/
+def dedupKeys : List (String × Shape) → List (String × Shape)
+  | [] => []
+  | k :: ks => k :: (dedupKeys ks).filter fun k' => !(k'.1 == k.1 && shapeEq k'.2 k.2)
+
 /-- classes of `(job name, shape)` with their member job ids: `get_unique_graph_job_ids_per_job_name`
-returns one (unspecified) member per class -/
+(`GROUP BY job_name, job_hash` with a bare `job_id` column) returns one (unspecified) member per class -/
 def shapeClasses (s : Store) : List (String × Shape × List String) :=
-  s.hashes.foldl (fun acc (jid, nm, sh) =>
-    if acc.any (fun (n2, s2, _) => n2 == nm && shapeEq s2 sh) then
-      acc.map fun (n2, s2, ids) => if n2 == nm && shapeEq s2 sh then (n2, s2, ids ++ [jid]) else (n2, s2, ids)
-    else acc ++ [(nm, sh, [jid])]) []
+  (dedupKeys (s.hashes.map fun (_, nm, sh) => (nm, sh))).map fun (nm, sh) =>
+    (nm, sh, (s.hashes.filter fun (_, n2, s2) => n2 == nm && shapeEq s2 sh).map (·.1))
 
 end O2P.Store
